@@ -12,9 +12,10 @@
    shared-memory operation that follows the schedule point (LT_VERIF_SCHED label) at which the real
    thread is parked, plus the thread-local code up to the next schedule point. A mutex-protected
    section is one step. Atomics are sequentially consistent (stated assumption); the weak CAS is
-   modelled as a strong CAS (true on x86: lock cmpxchg); atomic::wait(old) is enabled iff the word
-   differs from [old] (i.e. no wake-up is lost: every fetch_sub / fetch_and in the source is
-   directly followed by notify_all).
+   modelled as a strong CAS (true on x86: lock cmpxchg); atomic::wait(old) is two-phase: entering it with a word
+   different from [old] returns at once, otherwise the thread blocks (ICwBlk / IDlWBlk) and becomes enabled only after a
+   later notify_all() on the id (ghost notify count [ntf]); fetch_sub+notify_all and fetch_and+notify_all are one step
+   each, as in the source (no schedule point between them).
 
    The id word (std::atomic<uint32_t>): bits 0-2 in-progress count, bit 3 deadlock flag, bits
    4-31 generation (28 bits, wraps). It is kept as a record with an UNBOUNDED ghost generation;
@@ -45,7 +46,10 @@ Inductive cmd :=
 | Dispatch (oi : dpol)
 | PollOnce.                      (* Poll::do_poll(0): fetch_or(polling), timeout decision, epoll_wait, fetch_and *)
 
-Record idword := mkW { cnt : N; dl : bool; gen : N }.
+(* [ntf] is a ghost: the number of notify_all() calls made on the id so far. It is not part of the 32-bit word
+   ([word_N]); a thread blocked inside id->wait() remembers the value it saw when it blocked and is enabled again only
+   after a later notify - a changed word alone does not wake it (std::atomic::wait contract). *)
+Record idword := mkW { cnt : N; dl : bool; gen : N; ntf : nat }.
 
 Definition gmod : N := 268435456.            (* 2^28 generations *)
 Definition word_N (w : idword) : N :=
@@ -57,13 +61,14 @@ Definition upper_eqb (a b : N * bool) : bool := N.eqb (fst a) (fst b) && Bool.eq
 
 (* fetch_add(1): the carry out of the 3 count bits goes into the flag bit, as in the code *)
 Definition add1 (w : idword) : idword :=
-  if (cnt w <? 7)%N then mkW (cnt w + 1) (dl w) (gen w)
-  else mkW 0 (negb (dl w)) (if dl w then gen w + 1 else gen w)%N.
+  if (cnt w <? 7)%N then mkW (cnt w + 1) (dl w) (gen w) (ntf w)
+  else mkW 0 (negb (dl w)) (if dl w then gen w + 1 else gen w)%N (ntf w).
 Definition sub1 (w : idword) : idword :=
-  if (0 <? cnt w)%N then mkW (cnt w - 1) (dl w) (gen w)
-  else mkW 7 (negb (dl w)) (if dl w then gen w else gen w + gmod - 1)%N.
-Definition bump (w : idword) : idword := mkW (cnt w) (dl w) (gen w + 1).   (* + 0x10 *)
-Definition set_dl (w : idword) (b : bool) : idword := mkW (cnt w) b (gen w).
+  if (0 <? cnt w)%N then mkW (cnt w - 1) (dl w) (gen w) (ntf w)
+  else mkW 7 (negb (dl w)) (if dl w then gen w else gen w + gmod - 1)%N (ntf w).
+Definition bump (w : idword) : idword := mkW (cnt w) (dl w) (gen w + 1) (ntf w).   (* + 0x10 *)
+Definition set_dl (w : idword) (b : bool) : idword := mkW (cnt w) b (gen w) (ntf w).
+Definition notify (w : idword) : idword := mkW (cnt w) (dl w) (gen w) (S (ntf w)).   (* id->notify_all() *)
 
 Record entry := mkE { e_uid : uid; e_id : option idx; e_exp : N * bool; e_body : nat;
                       e_kind : kind (* ghost: the kind it was posted as = the queue it was pushed into *) }.
@@ -75,6 +80,7 @@ Inductive item :=
 | IPostIntr (tgt : tid) (u : uid) (oid : option idx)
 | ICwLoad (i : idx)
 | ICwWait (i : idx) (old : idword)
+| ICwBlk (i : idx) (old : idword) (ep : nat)     (* blocked inside id->wait(old) since notify count ep *)
 | ICwCas (i : idx) (old : idword)
 | IDlLoad (i : idx)
 | IDlCas (i : idx) (old : idword)
@@ -83,6 +89,7 @@ Inductive item :=
 | IDlCancel (i : idx)
 | IDlWLoad (i : idx)
 | IDlWWait (i : idx) (old : idword)
+| IDlWBlk (i : idx) (old : idword) (ep : nat)
 | IBatch (es : list entry) (oi : dpol)
 | IRun (e : entry)
 | IRet (e : entry)
@@ -136,7 +143,7 @@ Record cfg := mkCfg {
 Inductive label :=
 | L_cb_fetch_add | L_cb_lock | L_cb_fetch_sub | L_cb_interrupt | L_cbn_lock
 | L_cc_fetch_add | L_cw_load | L_cw_wait | L_cw_cas
-| L_dl_load | L_dl_cas | L_dl_fetch_add | L_dl_fetch_and | L_dl_wload | L_dl_wwait
+| L_dl_load | L_dl_cas | L_dl_fetch_add | L_dl_fetch_and | L_dl_wload | L_dl_wwait | L_fx_wake
 | L_pc_store | L_pc_lock | L_pc_fetch_add | L_pc_fetch_sub | L_pc_skip_sub
 | L_run | L_ret | L_nop | L_poll_enter | L_poll_wait_short | L_poll_wait_full | L_poll_leave.
 
@@ -270,6 +277,7 @@ Definition label_of_item (th : thread) (it : item) : label :=
   | IPostIntr _ _ _ => L_cb_interrupt
   | ICwLoad _ => L_cw_load
   | ICwWait _ _ => L_cw_wait
+  | ICwBlk _ _ _ => L_fx_wake
   | ICwCas _ _ => L_cw_cas
   | IDlLoad _ => L_dl_load
   | IDlCas _ _ => L_dl_cas
@@ -278,6 +286,7 @@ Definition label_of_item (th : thread) (it : item) : label :=
   | IDlCancel _ => L_cc_fetch_add
   | IDlWLoad _ => L_dl_wload
   | IDlWWait _ _ => L_dl_wwait
+  | IDlWBlk _ _ _ => L_fx_wake
   | IBatch [] _ => L_pc_lock
   | IBatch (e :: _) _ => match e_id e with Some _ => L_pc_fetch_add | None => L_run end
   | IRun _ => L_run
@@ -337,7 +346,7 @@ Definition step (c : cfg) (t : tid) : option cfg :=
           match nth_error (ids c) i with
           | None => None
           | Some w =>
-              let c1 := set_id c i (sub1 w) in
+              let c1 := set_id c i (notify (sub1 w)) in     (* fetch_sub(1); notify_all() *)
               if si then Some (set_thread c1 t (set_todo th (IPostIntr tgt u (Some i) :: rest)))
               else Some (post_ret (set_thread c1 t th0) u (Some i))
           end
@@ -383,10 +392,17 @@ Definition step (c : cfg) (t : tid) : option cfg :=
           | None => None
           | Some w => Some (set_thread c t (set_todo th (cw_after_load th i w :: rest)))
           end
-      | ICwWait i old =>
+      | ICwWait i old =>                (* enters id->wait(old): returns at once if the word differs, else blocks *)
           match nth_error (ids c) i with
           | None => None
-          | Some w => if word_eqb w old then None
+          | Some w => if word_eqb w old then Some (set_thread c t (set_todo th (ICwBlk i old (ntf w) :: rest)))
+                      else Some (set_thread c t (set_todo th (ICwLoad i :: rest)))
+          end
+      | ICwBlk i old ep =>              (* enabled only by a notify since it blocked; then re-checks the word *)
+          match nth_error (ids c) i with
+          | None => None
+          | Some w => if Nat.eqb (ntf w) ep then None
+                      else if word_eqb w old then Some (set_thread c t (set_todo th (ICwBlk i old (ntf w) :: rest)))
                       else Some (set_thread c t (set_todo th (ICwLoad i :: rest)))
           end
       | ICwCas i old =>
@@ -419,7 +435,7 @@ Definition step (c : cfg) (t : tid) : option cfg :=
       | IDlAnd i =>
           match nth_error (ids c) i with
           | None => None
-          | Some w => Some (cw_ret (set_thread (set_id c i (set_dl w false)) t th0) t th0 i true)
+          | Some w => Some (cw_ret (set_thread (set_id c i (notify (set_dl w false))) t th0) t th0 i true)
           end
       | IDlCancel i =>
           match nth_error (ids c) i with
@@ -436,7 +452,14 @@ Definition step (c : cfg) (t : tid) : option cfg :=
       | IDlWWait i old =>
           match nth_error (ids c) i with
           | None => None
-          | Some w => if word_eqb w old then None
+          | Some w => if word_eqb w old then Some (set_thread c t (set_todo th (IDlWBlk i old (ntf w) :: rest)))
+                      else Some (set_thread c t (set_todo th (IDlWLoad i :: rest)))
+          end
+      | IDlWBlk i old ep =>
+          match nth_error (ids c) i with
+          | None => None
+          | Some w => if Nat.eqb (ntf w) ep then None
+                      else if word_eqb w old then Some (set_thread c t (set_todo th (IDlWBlk i old (ntf w) :: rest)))
                       else Some (set_thread c t (set_todo th (IDlWLoad i :: rest)))
           end
       | ICmd (Dispatch oi) =>
@@ -486,12 +509,12 @@ Definition step (c : cfg) (t : tid) : option cfg :=
       | IEndCb i u =>
           match nth_error (ids c) i with
           | None => None
-          | Some w => Some (set_thread (set_id c i (sub1 w)) t th0)
+          | Some w => Some (set_thread (set_id c i (notify (sub1 w))) t th0)
           end
       | ISkipSub i u =>
           match nth_error (ids c) i with
           | None => None
-          | Some w => Some (add_log (set_thread (set_id c i (sub1 w)) t th0) [EvSkip u])
+          | Some w => Some (add_log (set_thread (set_id c i (notify (sub1 w))) t th0) [EvSkip u])
           end
       | ICmd PollOnce =>
           match nth_error (boxes c) t with
@@ -519,7 +542,7 @@ Definition label_at (c : cfg) (t : tid) : option label :=
 Definition init_thread (p : list cmd) : thread := mkT (map ICmd p) None None 0 [].
 Definition init (progs : list (list cmd)) (nids : nat) (bds : list (list cmd)) : cfg :=
   mkCfg (map init_thread progs) (map (fun _ => mkB [] [] false false false false) progs)
-        (repeat (mkW 0 false 0) nids) bds [] false [] [] [].
+        (repeat (mkW 0 false 0 0) nids) bds [] false [] [] [].
 
 (* a schedule step on a thread that is not enabled leaves the configuration unchanged *)
 Definition sstep (c : cfg) (t : tid) : cfg := match step c t with Some c' => c' | None => c end.
